@@ -2,7 +2,7 @@
 # usage: seed_verify.sh <dir with patch.diff demo.rs meta.json> [extra cargo test args for demo]
 # Confirms in a scratch worktree: suite passes with the patch, demo fails with it, demo passes without.
 D=$1; shift
-WT=/tmp/sv_$$
+WT=/tmp/sv_$$; export CARGO_TARGET_DIR=/tmp/sv_target
 git -C /repo worktree add -q --detach $WT HEAD || exit 9
 trap "git -C /repo worktree remove --force $WT" EXIT
 cd $WT
